@@ -26,8 +26,16 @@ OPS = ("from_dense", "from_sparse", "from_edge_list", "set_edge_list",
        "set_link_attribute", "node_weights")
 
 
-def edges_of(A, directed):
-    return np.argwhere(A) if directed else np.argwhere(np.triu(A))
+def edges_of(A, directed, eseed=None):
+    e = np.argwhere(A) if directed else np.argwhere(np.triu(A))
+    if eseed is not None and len(e) > 0:
+        rr = random.Random(eseed)
+        e = [tuple(map(int, x)) for x in e]
+        rr.shuffle(e)
+        if not directed:
+            e = [x if rr.random() < 0.5 else (x[1], x[0]) for x in e]
+        e = np.array(e)
+    return e
 
 
 class Model:
@@ -64,6 +72,8 @@ class C05(Machine):
                    "sparse_with_stored_zeros",
                    "source_perturbed_after_derivation",
                    "returned_arrays_edited_by_caller",
+                   "edge_list_unsorted",
+                   "input_matrix_cleared_after_derivation",
                    "igraph_edges_unsorted")
     faults_na = ("message_loss", "message_duplication", "partition",
                  "process_crash", "clock_skew", "bit_flips_after_save")
@@ -111,8 +121,15 @@ class C05(Machine):
             if k == "from_sparse":
                 op["fmt"] = o.choice(("csc", "csr", "coo", "lil"))
                 op["stored_zeros"] = o.random() < 0.4
+                # the caller's matrix may already have the dtype the class
+                # stores
+                op["dtype"] = o.choice((None, None, "int8", "int16", "int32",
+                                        "int64", "float64", "bool"))
             elif k in ("from_edge_list", "set_edge_list"):
                 op["with_n"] = o.random() < 0.6
+                # links listed in any order and, if undirected, either way
+                # round
+                op["eseed"] = o.choice((None, o.randrange(10 ** 9)))
             elif k == "save_load":
                 op["fmt"] = o.choice(FORMATS)
                 if fault:
@@ -212,7 +229,9 @@ class C05(Machine):
                     m.w = wv
                     new = net
                 elif k == "set_edge_list":
-                    e = edges_of(m.A, directed)
+                    e = edges_of(m.A, directed, op.get("eseed"))
+                    if op.get("eseed") is not None:
+                        R.probe("edge_list_unsorted")
                     if len(e) == 0 and not op["with_n"]:
                         continue
                     nn = n if (op["with_n"] or not self._last_linked(m.A)) \
@@ -250,6 +269,7 @@ class C05(Machine):
                     # the new object must not share state with its source:
                     # scale the source's weights in place, through the
                     # public property, and look at the new object again
+                    self._clear_input()
                     out = C.call(self._scale_weights, net, dict(m.attrs))
                     if not isinstance(out, C.Raised):
                         R.probe("source_perturbed_after_derivation")
@@ -281,6 +301,21 @@ class C05(Machine):
         # embedded graph would carry them over)
         for name, W in sorted((attrs or {}).items()):
             net.set_link_attribute(name, 3.0 * W)
+
+    def _clear_input(self):
+        """The caller re-uses the matrix it built the network from."""
+        S = getattr(self, "_input", None)
+        self._input = None
+        if S is None:
+            return
+        self._R.probe("input_matrix_cleared_after_derivation")
+        if isinstance(S, np.ndarray):
+            S[...] = 0
+        elif hasattr(S, "data") and isinstance(S.data, np.ndarray) and \
+                S.data.dtype != object:
+            S.data[...] = 0
+        else:
+            S[:, :] = 0
 
     @staticmethod
     def _scribble(net, names):
@@ -339,8 +374,10 @@ class C05(Machine):
 
     def _derive(self, net, m, k, op, sp, igraph, Network):
         """Next object from the previous one's public representation."""
+        self._input = None
         if k == "from_dense":
-            return self._build(m, k, np.array(net.adjacency))
+            self._input = np.array(net.adjacency)
+            return self._build(m, k, self._input)
         if k == "from_sparse":
             conv = {"csc": sp.csc_matrix, "csr": sp.csr_matrix,
                     "coo": sp.coo_matrix, "lil": sp.lil_matrix}[op["fmt"]]
@@ -354,10 +391,17 @@ class C05(Machine):
                                   shape=(nn, nn)).asformat(op["fmt"])
                 if S.nnz > Ad.sum():
                     self._R.probe("sparse_with_stored_zeros")
-                return self._build(m, k, S)
-            return self._build(m, k, conv(Ad))
+            else:
+                S = conv(Ad)
+            if op.get("dtype"):
+                S = S.astype(op["dtype"])
+            self._input = S               # the caller keeps its matrix
+            return self._build(m, k, S)
         if k == "from_edge_list":
-            e = edges_of(np.array(net.adjacency), m.directed)
+            e = edges_of(np.array(net.adjacency), m.directed,
+                         op.get("eseed"))
+            if op.get("eseed") is not None:
+                self._R.probe("edge_list_unsorted")
             if len(e) == 0:
                 # an edge list cannot describe an edgeless graph's size
                 return self._build(m, k)
